@@ -356,6 +356,11 @@ def run(ctx):
                 ctx.count("unknown.on-" + ref["status"])
                 ctx.count("unknown.%s.%s" % (tag, "p0" if ref["p"] is not None and abs(ref["p"]) < 1e-9 else "other"))
                 continue
+            if st == "dual infeasible" and ref["status"] == "infeasible" and lpref.dual_infeasible(vars_, P["obj"], shadow_cons):
+                # primal and dual infeasible: either certificate is a correct answer
+                ctx.count("status.both-infeasible.dual-reported")
+                judge(c, P, dict(ref, status="unbounded"), rv, obj, rcons, p, tag, rng)
+                continue
             if st != expect:
                 c.fail(mech(p, rcons, ref, "solve:status-%s-but-reference-%s" % (st.replace(" ", "-"), ref["status"])),
                        "op.solve(%s): status %r, HiGHS on the oracle's LP: %s" % (tag, st, ref["status"]))
@@ -381,6 +386,30 @@ def run(ctx):
             from scipy.optimize import linprog
             r = linprog(cc, A_ub=G, b_ub=np.broadcast_to(h, (G.shape[0],)), bounds=[(None, None)] * n, method="highs", **kw)
             return ({0: "optimal", 2: "infeasible", 3: "unbounded"}.get(r.status), (r.fun + d) if r.status == 0 else None)
+        except Exception:
+            return None
+
+    def lib_lp_accepts_returned_point(p):
+        """diagnostic only: the LP of op._inmatrixform() is feasible with the original variables fixed at their
+        returned values (auxiliary variables free)"""
+        try:
+            from vlib.conv import to_np
+            from scipy.optimize import linprog
+            vs = p.variables()
+            xs = np.concatenate([np.array(list(v.value), dtype=float) for v in vs])
+            t = p._inmatrixform("dense")
+            lp1 = t[0] if t is not None else p
+            X = lp1.variables()[0]
+            n = len(X)
+            G = to_np(matrix(lp1._inequalities[0]._f._linear._coeff[X])); h = -to_np(lp1._inequalities[0]._f._constant).reshape(-1)
+            kw = {}
+            if lp1._equalities:
+                kw["A_eq"] = to_np(matrix(lp1._equalities[0]._f._linear._coeff[X]))
+                kw["b_eq"] = -to_np(lp1._equalities[0]._f._constant).reshape(-1)
+            tol = 1e-6 * (1.0 + np.abs(xs))
+            bounds = [(xs[j] - tol[j], xs[j] + tol[j]) for j in range(len(xs))] + [(None, None)] * (n - len(xs))
+            r = linprog(np.zeros(n), A_ub=G, b_ub=np.broadcast_to(h, (G.shape[0],)) + 1e-6 * (1 + np.abs(h)), bounds=bounds, method="highs", **kw)
+            return r.status == 0
         except Exception:
             return None
 
@@ -440,11 +469,13 @@ def run(ctx):
 
     def mech(p, rcons, ref, generic):
         if pieces_wrong(p, rcons):
-            return "solve:matrix-form-conversion-changes-the-problem"
+            return "solve:pwl-linearisation-changes-the-problem"
+        if "returned-point-violates" in generic and lib_lp_accepts_returned_point(p):
+            return "solve:pwl-linearisation-changes-the-problem"
         pl = lib_lp_optimum(p)
         if pl is not None and pl[0] is not None:
             if pl[0] != ref["status"] or (pl[1] is not None and abs(pl[1] - ref["p"]) > 1e-6 * max(1.0, abs(ref["p"]))):
-                return "solve:matrix-form-conversion-changes-the-problem"
+                return "solve:matrix-form-assembly-changes-the-problem"
         if "multiplier" in generic or "infeasibility-certificate" in generic:
             if pieces_differ(rcons):
                 return "solve:multiplier-sum-broadcasts-pieces-of-different-length"
@@ -489,7 +520,7 @@ def run(ctx):
                       "objective.value() = %r, formula at the returned point = %r" % (ov, osh))
             err = abs(ov - ref["p"]) / max(1.0, abs(ref["p"]))
             ctx.maxobs("objective-vs-reference." + tag, err)
-            if err > (2e-5 if tag != "glpk" else 1e-7):
+            if err > (1e-2 if tag != "glpk" else 1e-6):
                 c.check()
                 c.fail(mech(p, rcons, ref, "solve:optimal-value-differs-from-reference"),
                        "%s: objective.value() = %.10g, p* = %.10g (relative %.3g)" % (tag, ov, ref["p"], err))
@@ -522,7 +553,7 @@ def run(ctx):
                 gap = (ref["p"] - lb["value"]) / msc if lb["value"] is not None else float("inf")
                 ctx.maxobs("lagrangian-gap." + tag, gap)
                 c.check()
-                if gap > 2e-5:
+                if gap > 1e-2:
                     c.fail(mech(p, rcons, ref, "solve:multipliers-not-dual-optimal"),
                            "%s: min over the box of the Lagrangian at the returned multipliers = %r < p* = %r"
                            % (tag, lb["value"], ref["p"]), multipliers=[list(m) for m in mult], minimiser=lb.get("x"))
@@ -575,7 +606,7 @@ def run(ctx):
                                 sc = max(1.0, float(np.max(c_["tree"].mg(ones))) / (tt * nd))
                                 v_ = float(np.max(dh if c_["typ"] == "<" else np.abs(dh))) / sc
                                 ctx.maxobs("certificate.dual.growth", v_)
-                                if v_ > 1e-4:
+                                if v_ > 1e-2:
                                     bad = "constraint grows by %.3g per unit step at t=%g" % (v_, tt)
                     else:
                         bad = "zero direction"
